@@ -1194,6 +1194,10 @@ func (x *Exec) execRange(n *ast.RangeStmt, st *State, env *Env) Flow {
 	default:
 		panic(unsupported("range over " + coll.Ty.String()))
 	}
+	if nlit, ok := litInt(length); ok && nlit <= 8 && len(spec.Invariants) == 0 && len(spec.DoStart) == 0 && len(spec.DoEnd) == 0 {
+		// fixed small trip count (array types, short literals): unrolled exactly - a complete treatment, not a bound
+		return x.unrollRange(n, coll, int(nlit), keyObj, valObj, st, env)
+	}
 	length = x.c.define("rangelen", "Int", length)
 	iname := fmt.Sprintf("range_i%d", ord)
 	// the hidden index: before the loop 0
@@ -1285,7 +1289,7 @@ func mergeNames(a, b map[string]Val) map[string]Val {
 var pureLib = map[string]bool{
 	"errors.New": true, "fmt.Errorf": true, "strconv.Itoa": true, "strconv.FormatFloat": true, "strconv.Atoi": true,
 	"strings.Join": true, "strings.ToUpper": true, "(*os.File).WriteString": true, "fmt.Fprintf": true, "fmt.Fprintln": true,
-	"fmt.Fprint": true, "unicode/utf8.DecodeRune": true, "unicode.IsLetter": true, "math.Log": true, "math.IsNaN": true,
+	"fmt.Fprint": true, "unicode/utf8.DecodeRune": true, "unicode.IsLetter": true, "math.Log": true, "math.IsNaN": true, "math.Floor": true, "sort.SearchInts": true, "sort.SearchStrings": true,
 	"(*bufio.Scanner).Bytes": true, "(*bufio.Scanner).Text": true, "(*bufio.Scanner).Err": true, "(*bufio.Scanner).Buffer": true,
 }
 
@@ -1495,4 +1499,38 @@ func (x *Exec) writtenThrough(body ast.Node, obj types.Object, info *types.Info)
 		return true
 	})
 	return found
+}
+
+
+// unrollRange executes a range loop with a statically known small number of iterations exactly.
+func (x *Exec) unrollRange(n *ast.RangeStmt, coll Val, trips int, keyObj, valObj types.Object, st *State, env *Env) Flow {
+	var exit, ret *State
+	cur := st
+	for i := 0; i < trips && cur != nil; i++ {
+		idx := intLit(int64(i))
+		if keyObj != nil {
+			cur.vars[keyObj] = Val{T: idx, Ty: tInt}
+		}
+		if valObj != nil {
+			var ev Val
+			switch u := coll.Ty.Underlying().(type) {
+			case *types.Slice:
+				ev = x.sliceRead(cur, coll, idx)
+			case *types.Array:
+				k := idx
+				if u.Len() == 256 {
+					k = bvLit(int64(i))
+				}
+				ev = Val{T: app("select", coll.T, k), Ty: u.Elem()}
+			default:
+				panic(unsupported("unrolled range over " + coll.Ty.String()))
+			}
+			cur.vars[valObj] = Val{T: x.c.define(valObj.Name(), x.c.sortOf(valObj.Type()), ev.T), Ty: valObj.Type()}
+		}
+		f := x.execBlock(n.Body.List, cur, env)
+		exit = x.merge(exit, f.brk)
+		ret = x.merge(ret, f.ret)
+		cur = x.merge(f.normal, f.cont)
+	}
+	return Flow{normal: x.merge(exit, cur), ret: ret}
 }
